@@ -301,13 +301,19 @@ def run_fs(desc):
             @seed(desc['seed'] + ti)
             @util.hyp_settings(desc['n'], shrink=False)
             @given(st.lists(pat, min_size=1, max_size=2), st.lists(st.sampled_from(gflags), max_size=5, unique=True),
-                   st.lists(st.sampled_from(wflags), max_size=5, unique=True), st.booleans())
-            def test(pats, gbits, wbits, use_wm):
+                   st.lists(st.sampled_from(wflags), max_size=5, unique=True), st.booleans(), st.integers(0, 11))
+            def test(pats, gbits, wbits, use_wm, shape):
                 texts = []
                 for segs in pats:
                     segs = tuple(x for x in segs if x)
                     if segs:
-                        texts.append(A.render_path(A.PathPat(False, segs, False, 1)))
+                        # spelling: runs of separators, trailing separator, leading `./`
+                        t = A.render_path(A.PathPat(False, segs, shape in (3, 4), 2 if shape in (1, 4) else 3 if shape == 2 else 1))
+                        if shape == 5:
+                            t = './/' + t
+                        if shape == 6 and '{' not in t and ',' not in t:
+                            t = t.replace('/', '/{,x}/', 1)      # with BRACE: an empty alternative leaves `a//b`
+                        texts.append(t)
                 if not texts:
                     return
                 out.stats['fs_cases'] += 1
